@@ -31,7 +31,8 @@ META = {
             "processed next), the discovered goals/edges are the same sets (= the relevant subprogram), hence the same "
             "well-founded value of every atom in every world, the same probabilities and the same must-reject verdict. "
             "The real engine is tied to this only by sampled schedules: default run vs seeded permutations of every all-'e' "
-            "message batch, on /repo/test and on generated programs.",
+            "message batch, on /repo/test and on generated programs."
+            " Termination is proved too: every schedule of length >= |Q| + 2|P| + #body literals terminates, so the independence theorems also hold unconditionally (`_total` forms).",
     "note": "The abstract machine has no cycle_root / buffers / siblings / answer propagation; that the engine's mechanics refine it is "
             "exactly what the sampled schedules test, not what is proved. Trusted: Coq kernel; harness canonicalisation (lists as multisets).",
 }
